@@ -497,3 +497,84 @@ rel e(int,int) input; rel f(int,int) input; rel r(int,int);
 macro either(a, b) { (e(a, b) | f(a, b) | e(a, t), f(t, b)) }
 r(x,z) <-- either!(x, y), either!(y, z);
 """, "mac par sugar", bound=3)
+
+# ------------------------------------------------------------------------------------------------ BYODS providers (C10-C12)
+# "history interpreter" programs: the input relation sched(iteration, [key,] x, y) decides in which iteration of the
+# recursive SCC a fact reaches the tagged relation r; r is read with every combination of bound / free columns both
+# inside its recursive SCC (readers feed back through the always-empty relation never()) and in later strata, joined,
+# negated and aggregated.
+
+
+def _ds_binary(provider):
+    fb = "\n".join(f"r(x,y) <-- {n}(x,y), never();" for n in ("iff", "ibf", "ifb", "ibb"))
+    return f"""
+rel sched(int,int,int) input; rel never() input; rel step(int); rel dom(int);
+rel r(int,int) ds {provider};
+rel iff(int,int); rel ibf(int,int); rel ifb(int,int); rel ibb(int,int);
+rel off(int,int); rel obf(int,int); rel ofb(int,int); rel obb(int,int);
+rel j(int,int); rel nr(int,int); rel cnt(int); rel outdeg(int,int);
+step(0);
+step(i + 1) <-- step(i), if i < 2;
+step(0) <-- r(_,_), never();
+dom(x) <-- for x in 0..3;
+r(x,y) <-- step(i), sched(i,x,y);
+iff(x,y) <-- r(x,y);
+ibf(x,y) <-- dom(x), r(x,y);
+ifb(x,y) <-- dom(y), r(x,y);
+ibb(x,y) <-- dom(x), dom(y), r(x,y);
+{fb}
+off(x,y) <-- r(x,y);
+obf(x,y) <-- dom(x), r(x,y);
+ofb(x,y) <-- dom(y), r(x,y);
+obb(x,y) <-- dom(x), dom(y), r(x,y);
+j(x,z) <-- sched(_,x,y), r(y,z);
+nr(x,y) <-- dom(x), dom(y), !r(x,y);
+cnt(n) <-- agg n = count() in r(_,_);
+outdeg(x,n) <-- dom(x), agg n = count() in r(x,_);
+"""
+
+
+def _ds_ternary(provider):
+    pats = {"000": "r(k,x,y)", "100": "kd(k), r(k,x,y)", "010": "dom(x), r(k,x,y)", "001": "dom(y), r(k,x,y)",
+            "110": "kd(k), dom(x), r(k,x,y)", "101": "kd(k), dom(y), r(k,x,y)", "011": "dom(x), dom(y), r(k,x,y)",
+            "111": "kd(k), dom(x), dom(y), r(k,x,y)"}
+    decl = " ".join(f"rel i{p}(int,int,int); rel o{p}(int,int,int);" for p in pats)
+    rules = "\n".join(f"i{p}(k,x,y) <-- {b};\nr(k,x,y) <-- i{p}(k,x,y), never();\no{p}(k,x,y) <-- {b};" for p, b in pats.items())
+    return f"""
+rel sched(int,int,int,int) input; rel never() input; rel step(int); rel dom(int); rel kd(int);
+rel r(int,int,int) ds {provider};
+{decl}
+rel nr(int,int,int); rel cnt(int,int);
+step(0);
+step(i + 1) <-- step(i), if i < 2;
+step(0) <-- r(_,_,_), never();
+dom(x) <-- for x in 0..3;
+kd(k) <-- for k in 0..2;
+r(k,x,y) <-- step(i), sched(i,k,x,y);
+{rules}
+nr(k,x,y) <-- kd(k), dom(x), dom(y), !r(k,x,y);
+cnt(k,n) <-- kd(k), agg n = count() in r(k,_,_);
+"""
+
+
+def _ds_plain(provider):
+    # non-recursive use: facts arrive at once, readers in later strata only, r also fed from a second rule
+    return f"""
+rel e(int,int) input; rel f(int,int) input; rel dom(int);
+rel r(int,int) ds {provider};
+rel off(int,int); rel obf(int,int); rel ofb(int,int); rel obb(int,int); rel two(int,int);
+dom(x) <-- for x in 0..3;
+r(x,y) <-- e(x,y);
+r(y,x) <-- f(x,y), e(x,_);
+off(x,y) <-- r(x,y);
+obf(x,y) <-- dom(x), r(x,y);
+ofb(x,y) <-- dom(y), r(x,y);
+obb(x,y) <-- dom(x), dom(y), r(x,y);
+two(x,z) <-- r(x,y), r(y,z), if x < z;
+"""
+
+
+for _prov, _tag in (("eqrel", "ds10"), ("trrel", "ds11"), ("trrel_uf", "ds12")):
+    prog(f"{_prov}_bin", _ds_binary(_prov), f"ds {_tag}" + (" par" if _prov == "eqrel" else ""), bound=3, dom=3)
+    prog(f"{_prov}_tern", _ds_ternary(_prov), f"ds {_tag}", bound=2, dom=3)
+    prog(f"{_prov}_plain", _ds_plain(_prov), f"ds {_tag}" + (" par" if _prov == "eqrel" else ""), bound=3, dom=3)
